@@ -2377,6 +2377,11 @@ def get_event_from_element(
             if element["op"] == "match":
                 # Delete flow reference from event since it is only a helper object
                 flow_event.flow = None
+                # The parameters of the helper object are not part of the statement: only the
+                # flow parameters that the statement mentions restrict the match
+                for arg_name in temp_flow_state.arguments:
+                    if arg_name not in flow_event_arguments:
+                        flow_event.arguments.pop(arg_name, None)
             return flow_event
         elif element_spec.spec_type == SpecType.ACTION:
             # Action object
